@@ -222,6 +222,11 @@ func c13Impl(c lib.Case) []string {
 				out = append(out, "timeout")
 				continue
 			}
+			// the restarted process has a new LocalDirectory object over the same directory (nothing held in memory by
+			// the dead writer, a lock say, survives a process death)
+			if r.tmp != "" {
+				r.inner = locations.NewLocalDirectory(r.tmp)
+			}
 			// a real crash leaves the temporary file of the interrupted write behind (the error path of Write, which
 			// this simulation takes, removes it): put one there, named as LocalDirectory.Write names it
 			r.inner.Write("checkpoints/.tmp-"+strings.TrimPrefix(c13Path(id), "checkpoints/")+"-1234567", strings.NewReader("cut-o"))
